@@ -354,7 +354,7 @@
     (let* ((prefix (string-append "=?" encoding "?B?"))
            (prefix-length (+ 2 (string-length prefix)))
            (effective-max-col (round4 (- max-col prefix-length)))
-           (first-max-col (round4 (- effective-max-col start-col)))
+           (first-max-col (max 0 (round4 (- effective-max-col start-col))))
            (str (base64-encode-string str))
            (len (string-length str)))
       (if (<= len first-max-col)
@@ -363,7 +363,7 @@
            (if (positive? first-max-col)
                (string-append
                 prefix (substring str 0 first-max-col) "?=" nl "\t" prefix)
-               "")
+               (string-append nl "\t" prefix))
            (string-join (string-chop (substring str first-max-col len)
                                      effective-max-col)
                         (string-append "?=" nl "\t" prefix))
